@@ -378,9 +378,19 @@ type c28g struct {
 	bkt bool // inside [ ]: no comments
 }
 
-func (g *c28g) n(lo, hi int, label string) int { return rapid.IntRange(lo, hi).Draw(g.t, label) }
-func (g *c28g) p(percent int) bool              { return rapid.IntRange(0, 99).Draw(g.t, "p") < percent }
-func (g *c28g) pick(l []string) string          { return rapid.SampledFrom(l).Draw(g.t, "pick") }
+// rapid's integer generators are deliberately biased towards small values (a geometric choice of the bit length), which
+// would distort every probability below; u scrambles a wide draw into a near-uniform one. 0 stays 0, so shrinking still
+// moves towards the first alternative / "false".
+func c28U(t *rapid.T, n int, label string) int {
+	x := uint64(rapid.IntRange(0, 1<<24).Draw(t, label))
+	x *= 0x9E3779B97F4A7C15
+	x ^= x >> 29
+	return int(x % uint64(n))
+}
+
+func (g *c28g) n(lo, hi int, label string) int { return lo + c28U(g.t, hi-lo+1, label) }
+func (g *c28g) p(percent int) bool              { return c28U(g.t, 100, "p") >= 100-percent }
+func (g *c28g) pick(l []string) string          { return l[c28U(g.t, len(l), "pick")] }
 
 func c28Alnum(b byte) bool {
 	return b == '_' || b == ':' || b == '.' || (b >= '0' && b <= '9') || (b >= 'a' && b <= 'z') || (b >= 'A' && b <= 'Z')
@@ -424,7 +434,7 @@ var (
 	c28KwLabels   = []string{"sum", "bool", "by", "on", "ignoring", "group_left", "group_right", "offset", "and", "or", "unless", "atan2", "start", "end", "avg", "inf", "nan", "1e5", "0x1f"}
 	c28Internal   = []string{"what", "by", "name", "bind", "maxhost", "x"}
 	c28Vars       = []string{"v", "var1", "_env", "sum", "0", "host"}
-	c28Regex      = []string{"a.*", "^x$", "(a|b)+", "[0-9]{2,}", "\\d+", "", "a\\.b", ".+", "x|y", "[\"']", "\\\\", "("}
+	c28Regex      = []string{"a.*", "^x$", "(a|b)+", "[0-9]{2,}", "\\d+", "", "a\\.b", ".+", "x|y", "[\"']", "\\\\", "a.*", "prod|stag.*", "(?i)x", "("}
 	c28BinOps     = []string{"+", "-", "*", "/", "%", "^", "==", "!=", "<", "<=", ">", ">=", "and", "or", "unless", "default", "atan2"}
 	c28AggOps     = []string{"sum", "avg", "count", "min", "max", "group", "stddev", "stdvar", "topk", "bottomk", "count_values", "quantile", "sort", "sort_desc", "drop_empty_series", "dbag"}
 	c28Units      = []string{"ms", "s", "m", "h", "d", "w", "y"}
@@ -530,15 +540,15 @@ func (g *c28g) number() string {
 }
 
 func (g *c28g) duration() string {
-	switch g.n(0, 9, "durkind") {
-	case 0, 1, 2, 3, 4:
+	switch k := g.n(0, 29, "durkind"); {
+	case k < 15:
 		return strconv.Itoa(g.n(1, 90, "dn")) + g.pick([]string{"s", "m", "h", "d"})
-	case 5:
-		return strconv.Itoa(g.n(1, 5000, "dn")) + g.pick(c28Units)
-	case 6: // compound, units in the required order
+	case k < 19:
+		return strconv.Itoa(g.n(1, 5000, "dn")) + g.pick([]string{"s", "m", "h", "d", "w", "y"})
+	case k < 24: // compound, units in the required order ("ms" is only lexed after another unit)
 		var sb strings.Builder
 		for _, u := range c28UnitOrder {
-			if g.p(35) {
+			if g.p(35) && (u != "ms" || sb.Len() > 0) {
 				sb.WriteString(strconv.Itoa(g.n(0, 70, "dn")) + u)
 			}
 		}
@@ -546,17 +556,17 @@ func (g *c28g) duration() string {
 			return "1h30m"
 		}
 		return sb.String()
-	case 7:
-		return g.pick([]string{"500ms", "1500ms", "2s500ms", "999ms", "1s", "1y", "52w", "365d", "100y", "0s", "0m", "400ms", "1ms", "5m0s", "90m"})
-	case 8:
-		return g.pick([]string{"5", "1.5", "5x", "1h1h", "1m1h", "5M"}) // not durations
+	case k < 28:
+		return g.pick([]string{"2s500ms", "1s", "1y", "52w", "365d", "100y", "5m0s", "90m", "1h30m", "1s1ms", "0d1s", "0s999ms", "0s500ms", "1s499ms", "1s500ms"})
+	case k < 29: // zero after rounding, overflow, unit the lexer does not take alone
+		return g.pick([]string{"0s", "0m", "0s400ms", "0d1ms", "500ms", "5000y", "300y"})
 	default:
-		return "5m"
+		return g.pick([]string{"5", "1.5", "5x", "1h1h", "1m1h", "5M"}) // not durations
 	}
 }
 
-func (g *c28g) offsetValue() {
-	if g.p(30) {
+func (g *c28g) offsetValue(percentNeg int) {
+	if g.p(percentNeg) {
 		g.tok("-")
 	}
 	g.tok(g.duration())
@@ -600,12 +610,16 @@ func (g *c28g) modifiers() {
 					if j > 0 {
 						g.tok(",")
 					}
-					g.offsetValue()
+					if j == 0 {
+						g.offsetValue(3) // the lexer expects a duration right after '[': a leading '-' is rejected
+					} else {
+						g.offsetValue(35)
+					}
 				}
 				g.tok("]")
 				g.bkt = false
 			} else {
-				g.offsetValue()
+				g.offsetValue(35)
 			}
 			continue
 		}
@@ -626,7 +640,7 @@ func (g *c28g) modifiers() {
 		case 5:
 			g.tok(strconv.FormatFloat(float64(g.n(0, 4000000000000, "tsms"))/1000, 'f', -1, 64))
 		case 6:
-			g.tok(g.pick([]string{"1e9", "1e12", "0x10", "1.0005", "2.9999", "1e-9", "Inf", "NaN", "1e19", "9e15", "1e300"}))
+			g.tok(g.pick([]string{"1e9", "1e12", "0x10", "1.0005", "2.9999", "1e-9", "1e9", "017", "1.", ".5", "3e3", "1e12", "Inf", "NaN", "1e19", "9e15"}))
 		default:
 			g.tok(strconv.Itoa(g.n(0, 2000000000, "ts")))
 		}
@@ -963,7 +977,7 @@ var c28Vocab = []string{
 
 func c28GenStrings() *rapid.Generator[c28Case] {
 	return rapid.Custom(func(t *rapid.T) c28Case {
-		switch rapid.IntRange(0, 9).Draw(t, "mode") {
+		switch c28U(t, 10, "mode") {
 		case 0:
 			return c28Mk(string(rapid.SliceOfN(rapid.Byte(), 0, 60).Draw(t, "bytes")))
 		case 1:
